@@ -43,7 +43,7 @@ def cases(tier, seed, info):
 
 PLIDS = [0x50000001, 0x50000011, 0x00001234, 0x00012345, 0x0ABCDEF0, 0x10000000, 0x0FFFFFFF, 0x5000001A, 0xFFFFFFFF,
          0x00000001, 0x00000000, 0x0000000C, 0x00000010, 0x000000FF]
-BMCS = [1, 12, 123, 1234, 2, 21, 4294967295, 100, 10, 0, 0, 7]
+BMCS = [1, 12, 123, 1234, 2, 21, 4294967295, 100, 10, 0, 0, 7, 2147483648, 3221225763, 2147483647]
 
 
 def run_case(case):
